@@ -45,6 +45,10 @@ STAGES = {
         'modules': ['cell_type_mapper.type_assignment.election'],
         'mid': ('cell_type_mapper.type_assignment.election',
                 '_run_type_assignment')},
+    'mapping_obsm_only': {
+        'modules': ['cell_type_mapper.type_assignment.election'],
+        'mid': ('cell_type_mapper.type_assignment.election',
+                '_run_type_assignment')},
     'mapping_direct': {
         'modules': ['cell_type_mapper.type_assignment.election'],
         'mid': ('cell_type_mapper.type_assignment.election',
@@ -84,7 +88,7 @@ REQUIRED_COUNTERS += [f'stage_{s}' for s in STAGES]
 # workers dispatched by each stage on the standard small input (measured by
 # the dry run of each case; this table only sizes the enumeration)
 N_WORKERS_HINT = {
-    'mapping': 4, 'mapping_direct': 4, 'stats': 3, 'refmarkers_score': 2,
+    'mapping': 4, 'mapping_obsm_only': 4, 'mapping_direct': 4, 'stats': 3, 'refmarkers_score': 2,
     'refmarkers_transpose': 4, 'pmask': 2, 'pmask_markers': 2,
     'selection': 3, 'transpose_v2': 3,
 }
@@ -195,6 +199,24 @@ def run_stage(env, stage, out_dir, n_proc=None):
                             output_path=cfg['extended_result_path'],
                             log_path=cfg['log_path'],
                             hdf5_output_path=cfg['hdf5_result_path'])
+        elif stage == 'mapping_obsm_only':
+            # results requested in the query file only: no JSON, no HDF5
+            import shutil as _sh
+            qcopy = out_dir / 'query_obsm.h5ad'
+            _sh.copy(env.query, qcopy)
+            cfg = pw.mapping_config(out_dir, qcopy, env.stats, env.lookup,
+                                    chunk_size=3, n_processors=NP(5))
+            cfg['extended_result_path'] = None
+            cfg['hdf5_result_path'] = None
+            cfg['csv_result_path'] = None
+            cfg['obsm_key'] = 'mapping'
+            outs['config_obsm'] = cfg
+            from cell_type_mapper.cli.from_specified_markers import (
+                run_mapping)
+            with pw.quiet():
+                run_mapping(config=cfg, output_path=None,
+                            log_path=cfg['log_path'],
+                            hdf5_output_path=None)
         elif stage == 'mapping_direct':
             from cell_type_mapper.taxonomy.taxonomy_tree import TaxonomyTree
             from cell_type_mapper.type_assignment.marker_cache_v2 import (
@@ -395,6 +417,17 @@ def run_case(spec, work):
             viol.append({'sig': 'C14:mapping-no-hdf5-log', 'msg': what})
         if pathlib.Path(cfg['csv_result_path']).exists():
             viol.append({'sig': 'C14:mapping-csv-written', 'msg': what})
+        lp = pathlib.Path(cfg['log_path'])
+        if not lp.exists():
+            viol.append({'sig': 'C14:mapping-no-log-file', 'msg': what})
+        elif 'RAN SUCCESSFULLY' in lp.read_text():
+            viol.append({'sig': 'C14:mapping-success-message', 'msg': what})
+    elif stage == 'mapping_obsm_only':
+        cfg = outs['config_obsm']
+        with h5py.File(cfg['query_path'], 'r') as f:
+            if 'obsm' in f and 'mapping' in f['obsm']:
+                viol.append({'sig': 'C14:mapping-obsm-written',
+                             'msg': f'results stored in obsm; {what}'})
         lp = pathlib.Path(cfg['log_path'])
         if not lp.exists():
             viol.append({'sig': 'C14:mapping-no-log-file', 'msg': what})
